@@ -53,5 +53,25 @@ elif name == "tuple_assignment_sequential":
         "                    ctx.symbols[cast(ast.Name, target).id] = cast(sympy.Expr, _handle_expr(value_node, ctx))")
 elif name == "coefficient_from_cache":
     subprocess.run(["patch", "-p1", "-s", "-i", "/verif/seeded/C07-1/patch.diff"], check=True)
+elif name == "zip_not_strict":
+    # seeded C07-6 in the source's own shape: a parameter that gets no argument stays behind as a bare symbol
+    sub(ST, "dict(zip(fn_args, model_args, strict=True)), simultaneous=True", "dict(zip(fn_args, model_args)), simultaneous=True")
+elif name == "defaults_filled_from_signature":
+    # "support" for default values that forgets them: the unsupplied trailing parameters are dropped from the
+    # binding (only as many names as arguments are zipped, strictly)
+    sub(ST, "dict(zip(fn_args, model_args, strict=True)), simultaneous=True",
+        "dict(zip(fn_args[: len(model_args)], model_args, strict=True)), simultaneous=True")
+elif name == "kwonly_parameters_are_symbols":
+    # keyword-only parameters enter the symbol table (and stay in the expression as bare symbols)
+    sub(ST, "fn_args = [str(arg.arg) for arg in fn_def.args.args]",
+        "fn_args = [str(arg.arg) for arg in fn_def.args.args]\n        kw_args = [str(arg.arg) for arg in fn_def.args.kwonlyargs]")
+    sub(ST, "symbols={name: sympy.Symbol(name) for name in fn_args},", "symbols={name: sympy.Symbol(name) for name in [*fn_args, *kw_args]},")
+elif name == "surplus_arguments_ignored":
+    # more arguments than parameters (a callee with *args): the surplus is dropped -- harmless for a callee that ignores
+    # *args, but the strictness of the binding is gone for too MANY arguments only
+    sub(ST, "dict(zip(fn_args, model_args, strict=True)), simultaneous=True",
+        "dict(zip(fn_args, model_args[: len(fn_args)], strict=True)), simultaneous=True")
+elif name == "empty_argument_list_fix":
+    subprocess.run(["patch", "-p1", "-s", "-i", "/verif/fixes/C07-empty-argument-list-strict.diff"], check=True)
 else:
     sys.exit(f"unknown MUTNAME {name!r}")
